@@ -121,6 +121,10 @@ class MediaRequestBase(RequestHandlerBase):
             return flask.make_response('Failed to parse media file', 404)
         if representation.encrypted:
             keys = models.Key.get_kids(representation.kids)
+            if len(keys) < len(set(representation.kids)):
+                # the key of this encrypted file has been deleted
+                return flask.make_response(
+                    'the encryption keys of this stream are not available', 404)
             drms = DrmContext(current_stream, keys, options)
             for drm in drms:
                 if drm.moov is not None:
